@@ -65,7 +65,8 @@ def run_bin(binary, lines, env=None):
 def run(ctx, broken):
     rng = SplitMix(ctx.seed * 1000003 + 18)
     srs = srs_draws(rng)
-    sizes = [20, 600] if ctx.tier == "quick" else [20, 100, 500, 600, 1100, 2100, 4200]
+    # incl. EXACTLY full domains (gates = 2^k: no padding row hides a dropped tail of a chunked loop)
+    sizes = [20, 600, 1024] if ctx.tier == "quick" else [20, 100, 500, 512, 600, 1024, 1100, 2048, 2100, 4096, 4200]
     lines = []
     for g in sizes:
         draws = [draw_hex(rng) for _ in range(14)]
@@ -86,7 +87,7 @@ def run(ctx, broken):
         ctx.violation("impl:request-order", {"kind": "implementation-vs-property", "why": "the result of a compile+prove request depends on the "
                       "requests the same process served before", "request": (list(reversed(lines)) + lines)[k][:400],
                       "outputs": {"fresh": want[k][:300], "after-others": twice[k][:300] if k < len(twice) else "missing"}})
-    pools = [2, 3, 4, 5, 8, 17] if ctx.tier == "quick" else [1, 2, 3, 4, 5, 6, 7, 8, 9, 10, 11, 12, 13, 14, 15, 16, 17, 32, 64]
+    pools = [2, 3, 5, 6, 7, 8, 12, 17] if ctx.tier == "quick" else [1, 2, 3, 4, 5, 6, 7, 8, 9, 10, 11, 12, 13, 14, 15, 16, 17, 32, 64]
     n_runs = 0
     dist = {}
     for k in pools:
